@@ -23,6 +23,7 @@ static int sched_on;
 static __thread int my_id = -1;
 static uint64_t points_total, preemptions_taken;
 static uint64_t points_of[MAXT];
+static int fp_mod = 1, fp_res;     /* work split: this unit explores the schedules whose FIRST preemption is at a point with index % fp_mod == fp_res */
 
 static int pick_enabled(int k, int except)
 {
@@ -47,6 +48,7 @@ static void sched_point(void)
   pthread_mutex_lock(&mu);
   points_total++; points_of[my_id]++;
   int others = count_enabled(my_id);
+  if (others > 0 && preemptions_taken == 0 && fp_mod > 1 && (int)(points_total % (uint64_t)fp_mod) != fp_res) others = 0;   /* another unit's share */
   if (others > 0) {
     int c = mc_choose_dev(1 + others);             /* 0 = go on, otherwise preempt in favour of the (c-1)-th other enabled thread */
     if (c > 0) { preemptions_taken++; hand_over(pick_enabled(c - 1, my_id)); wait_turn(); }
@@ -107,6 +109,15 @@ unsigned long __real_strtoul(const char *, char **, int); unsigned long __wrap_s
 unsigned long long __real_strtoull(const char *, char **, int); unsigned long long __wrap_strtoull(const char *s, char **e, int b) { PT; return __real_strtoull(s, e, b); }
 float __real_strtof(const char *, char **); float __wrap_strtof(const char *s, char **e) { PT; return __real_strtof(s, e); }
 double __real_strtod(const char *, char **); double __wrap_strtod(const char *s, char **e) { PT; return __real_strtod(s, e); }
+/* file descriptors are process-wide: every call that takes or releases one is a scheduling point as well */
+#include <fcntl.h>
+int __real_open(const char *, int, ...); int __wrap_open(const char *p, int fl, ...) { PT; mode_t m = 0; if (fl & (O_CREAT | O_TMPFILE)) { va_list ap; va_start(ap, fl); m = (mode_t)va_arg(ap, int); va_end(ap); } return __real_open(p, fl, m); }
+int __real_openat(int, const char *, int, ...); int __wrap_openat(int d, const char *p, int fl, ...) { PT; mode_t m = 0; if (fl & (O_CREAT | O_TMPFILE)) { va_list ap; va_start(ap, fl); m = (mode_t)va_arg(ap, int); va_end(ap); } return __real_openat(d, p, fl, m); }
+int __real_close(int); int __wrap_close(int fd) { PT; return __real_close(fd); }
+FILE *__real_fdopen(int, const char *); FILE *__wrap_fdopen(int fd, const char *m) { PT; return __real_fdopen(fd, m); }
+int __real_fstat(int, struct stat *); int __wrap_fstat(int fd, struct stat *s) { PT; return __real_fstat(fd, s); }
+DIR *__real_opendir(const char *); DIR *__wrap_opendir(const char *p) { PT; return __real_opendir(p); }
+int __real_closedir(DIR *); int __wrap_closedir(DIR *d) { PT; return __real_closedir(d); }
 
 /* ------------------------------------------------------------------ exploration */
 static int combo[MAXT], ncombo;
@@ -171,30 +182,42 @@ int main(int argc, char **argv)
   mc_args(argc, argv);
   int bound = (int)mc_opt.param[0], triples = (int)mc_opt.param[1];
   body_lite = (int)mc_opt.param[2];
+  int only_body = (int)mc_opt.param[3] - 1;          /* --p3 = n: only combinations that contain body n */
+  int partner_mask = mc_opt.param[4] ? (int)mc_opt.param[4] : ~0;   /* --p4: bit set of the bodies allowed in a combination */
   for (int i = 0; i <= MAXT; i++) pthread_cond_init(&cv[i], NULL);
   mc_sparse_ids = 1;
   int my_shard = mc_opt.shard, shards = mc_opt.nshards;
   mc_opt.nshards = 1; mc_opt.shard = 0;              /* a combination is explored completely by one shard */
   /* combinations: every unordered pair (incl. the same body twice), optionally every unordered triple */
-  int combos[64][MAXT], nc[64], ncomb = 0;
+  int combos[128][MAXT], nc[128], ncomb = 0;
   for (int a = 0; a < NBODIES; a++) for (int b = a; b < NBODIES; b++) { combos[ncomb][0] = a; combos[ncomb][1] = b; nc[ncomb++] = 2; }
   if (triples) for (int a = 0; a < NBODIES; a++) for (int b = a; b < NBODIES; b++) for (int c = b; c < NBODIES; c++) { combos[ncomb][0] = a; combos[ncomb][1] = b; combos[ncomb][2] = c; nc[ncomb++] = 3; }
+  int R = mc_opt.param[5] > 1 ? (int)mc_opt.param[5] : 1;   /* --p5 = R: every combination is split into R units by the position of the first preemption */
   if (mc_opt.case_id) {
-    const char *t = strchr(mc_opt.case_id, 't'); int ci = t ? atoi(t + 1) : 0;
+    const char *t = strchr(mc_opt.case_id, 't'); int u = t ? atoi(t + 1) : 0, ci = u / R;
+    fp_mod = R; fp_res = u % R;
     ncombo = nc[ci]; memcpy(combo, combos[ci], sizeof combo);
     setup_combo();
     return mc_replay(run_threads, check, mc_opt.case_id);
   }
   int all_done = 1;
   for (int b = 0; b <= bound && all_done; b++) {
+    int unit = -1;
     for (int ci = 0; ci < ncomb && all_done; ci++) {
-      if (ci % shards != my_shard) continue;
+      if (only_body >= 0) { int has = 0; for (int k = 0; k < nc[ci]; k++) if (combos[ci][k] == only_body) has = 1; if (!has) continue; }
+      { int ok = 1; for (int k = 0; k < nc[ci]; k++) if (!((partner_mask >> combos[ci][k]) & 1)) ok = 0; if (!ok) continue; }
       int tb = nc[ci] == 3 && b > 1 ? -1 : b;          /* triples: bounds 0 and 1 only */
       if (tb < 0) continue;
-      mc_tag = ci; ncombo = nc[ci]; memcpy(combo, combos[ci], sizeof combo);
-      setup_combo();
-      all_done = mc_explore(run_threads, check, b, 1);
-      if (all_done) mc_extra(1 + (b > 2 ? 2 : b), b == 0 ? "combinations_done_bound0" : b == 1 ? "combinations_done_bound1" : "combinations_done_bound2", 1);
+      for (int r = 0; r < R && all_done; r++) {
+        unit++;
+        if (unit % shards != my_shard) continue;
+        if (b == 0 && r > 0) continue;                 /* without a preemption there is nothing to split */
+        fp_mod = R; fp_res = r;
+        mc_tag = ci * R + r; ncombo = nc[ci]; memcpy(combo, combos[ci], sizeof combo);
+        setup_combo();
+        all_done = mc_explore(run_threads, check, b, 1);
+        if (all_done) mc_extra(1 + (b > 2 ? 2 : b), b == 0 ? "units_done_bound0" : b == 1 ? "units_done_bound1" : "units_done_bound2", 1);
+      }
     }
     if (all_done) mc_st->bound_completed = b;
   }
